@@ -119,6 +119,7 @@ pub fn exec(case: &Value) -> Value {
     let mut fp = vec![];
     let mut nfr = vec![];
     let mut npc = vec![];
+    let mut ndeg = vec![];
     for t in 0..nt {
         let mut fb = Framebuf {
             color_buf: Buf2::new_from((bw, bh), std::iter::repeat(C0)),
@@ -163,6 +164,22 @@ pub fn exec(case: &Value) -> Value {
         let mut out = vec![];
         view_frustum::clip(&[tri][..], &mut out);
         npc.push(out.len());
+        // pieces whose on-screen area is (all but) zero: their facing is undefined, so whether
+        // culling drops them is left open by the relation
+        let scr = |p: &ProjVec4| {
+            let w = p.0[3] as f64;
+            let v = to_screen.apply(&re::math::vec::vec3((p.0[0] as f64 / w) as f32, (p.0[1] as f64 / w) as f32, 0.0));
+            (v.x() as f64, v.y() as f64)
+        };
+        ndeg.push(
+            out.iter()
+                .filter(|o| {
+                    let (a, b, c) = (scr(&o.0[0].pos), scr(&o.0[1].pos), scr(&o.0[2].pos));
+                    let cross = (b.0 - a.0) * (c.1 - a.1) - (b.1 - a.1) * (c.0 - a.0);
+                    !(cross.abs() > 1e-4)
+                })
+                .count(),
+        );
     }
     let tv: Vec<Value> = tris_in
         .iter()
@@ -174,7 +191,7 @@ pub fn exec(case: &Value) -> Value {
     let vsign = if (vpn(2) > vpn(0)) == (vpn(3) > vpn(1)) { 1 } else { -1 };
     let dpix: Vec<u8> = (0..np).map(|p| (((p as u32 % bw) + (p as u32 / bw)) % 3 == 0) as u8).collect();
     let col: Vec<u32> = (0..nt).map(|t| rgba((t + 1) as u8, 0x40, 0x80, 0).to_argb_u32()).collect();
-    let scene = json!({"np": np, "fp": fp, "col": col, "nfr": nfr, "npc": npc, "tv": tv, "vsign": vsign, "dpix": dpix});
+    let scene = json!({"np": np, "fp": fp, "col": col, "nfr": nfr, "npc": npc, "ndeg": ndeg, "tv": tv, "vsign": vsign, "dpix": dpix});
 
     // ---- histories
     let mut hists = vec![];
